@@ -41,6 +41,7 @@ def lean_requests(c):
     reqs = [{'op': o, 'P': c['P']} for o in ('pda_one_accepting', 'pda_empty_stack', 'pda_push_pop', 'pda_is_push_pop')]
     if c['cfg']:
         reqs.append({'op': 'pda_to_cfg', 'P': c['P']})
+        reqs.append({'op': 'pda_to_cfg', 'P': c['P'], 'aes': True})
     return reqs
 
 
@@ -149,6 +150,17 @@ def judge(ctx, c, answers):
             if 'ok' not in la or len(la['ok']['R']) != len(rules) or len(set(la['ok']['V'])) != len(G.V):
                 ctx.violation('correspondence:pda_to_cfg', {'case': c, 'impl_rules': len(rules), 'model_rules': len(la.get('ok', {}).get('R', []))}, no_input=not bad)
             ctx.count('pda_to_cfg')
+        # the variant for PDAs that already accept on empty stack: grammar = words accepted with the EMPTY stack
+        la2 = answers[5]
+        got2 = call(PA.pda_to_cfg, P, True, limit=60)
+        if enc.canon_pda(P, False) != before:
+            ctx.violation('argument-mutated', {'case': c, 'op': 'pda_to_cfg(accepts_on_empty_stack=True)'})
+        if 'ok' in got2:
+            G2 = got2['ok']
+            if 'ok' not in la2 or len(la2['ok']['R']) != len(G2.R) or len(set(la2['ok']['V'])) != len(G2.V):
+                ctx.violation('correspondence:pda_to_cfg(aes)', {'case': c, 'impl_rules': len(G2.R), 'model': str(la2)[:200]}, no_input=True)
+        elif not ('err' in la2 and la2['err'] == got2['err']):
+            ctx.violation('correspondence:pda_to_cfg(aes)', {'case': c, 'impl': got2, 'model': str(la2)[:200]}, no_input=True)
     if enc.canon_pda(P, False) != before:
         ctx.violation('argument-mutated', {'case': c})
     ctx.record('c10/' + core.digest(c), res)
